@@ -399,12 +399,19 @@ pub fn to_v1(file: &[u8]) -> Vec<u8> {
 pub fn emit_hist<W: Write>(c: &mut Cases<W>, cfg: &FileCfg, es: &[(Vec<u8>, Vec<u8>)], file: &[u8], ops: &[(usize, Op)], with_fp: bool) {
     c.begin("hist");
     c.line(&format!("prop {}", c.prop.clone()));
+    if let Some(t) = c.pending_tag.take() {
+        c.line(&t);
+    }
     c.line(&cfg.line());
     c.line(&format!("file {}", hex(file)));
     ztable_body(c, cfg.codec, file);
     for (k, v) in es {
         c.line(&format!("e {} {}", hex(k), hex(v)));
     }
+    for (cid, op) in ops {
+        c.line(&format!("planned {} {:?}", cid, op));
+    }
+    c.checkpoint();
     match catch(|| Reader::new(Cursor::new(file)).map(|r| {
         if r.is_empty() != (r.len() == 0) {
             println!("DIRECT fail Reader::is_empty() = {} but len() = {}", r.is_empty(), r.len());
@@ -485,6 +492,17 @@ pub fn generate<W: Write>(c: &mut Cases<W>, rng: &mut Rng, thorough: bool, which
             emit_hist(c, &cfg, &es, &f, &ops, true);
         }
     }
+    // the deepest index trees the format allows: index_levels 254 and 255 (u8 arithmetic on the depth)
+    if which != "C10" {
+        for levels in [254u8, 255] {
+            let cfg = FileCfg { codec: CompressionType::None, level: 0, block_size: 64, unclamped: true, interval: Some(2), levels };
+            let es: Vec<(Vec<u8>, Vec<u8>)> = (0..9u32).map(|i| (vec![i as u8, 1], vec![i as u8; 30])).collect();
+            if let WriteOutcome::File(f) = write_file(&cfg, &es) {
+                let ops = gen_history(rng, &es, 30, if which == "C02" { 0 } else { 1 });
+                emit_hist(c, &cfg, &es, &f, &ops, which == "C03");
+            }
+        }
+    }
     if which == "C10" {
         for i in 0..400u64 {
             let root = if i % 3 == 0 { rng.next() } else { rng.below(1 << 20) };
@@ -540,6 +558,16 @@ pub fn generate<W: Write>(c: &mut Cases<W>, rng: &mut Rng, thorough: bool, which
             let v1 = to_v1(&file);
             emit_hist(c, &cfg, &es, &v1, &ops, false);
             emit_hist(c, &cfg, &es, &file, &ops, false);
+            if i % 3 == 0 {
+                // the same version-1 file with an arbitrary 64-bit stored count (the count is reported by
+                // len() and used for nothing else: every query must be unaffected)
+                let count: u64 = match i % 9 { 0 => u64::MAX, 3 => 1u64 << 56, _ => (0xA5u64 << 56) | 7 };
+                let mut patched = v1.clone();
+                let n = patched.len();
+                patched[n - 12..n - 4].copy_from_slice(&count.to_le_bytes());
+                c.pending_tag = Some(format!("storedcount {}", count));
+                emit_hist(c, &cfg, &es, &patched, &ops, false);
+            }
         } else {
             emit_hist(c, &cfg, &es, &file, &ops, which == "C03");
         }
@@ -592,7 +620,12 @@ pub fn generate_iter<W: Write>(c: &mut Cases<W>, rng: &mut Rng, thorough: bool, 
         if cfg.levels > 8 {
             cfg.levels = (cfg.levels % 5) + 1;
         }
-        let es = bounded_entries(rng, &cfg, 250, if deep { 5000 } else { 25000 });
+        let mut es = bounded_entries(rng, &cfg, 250, if deep { 5000 } else { 25000 });
+        if i < 2 {
+            // the deepest index trees the format allows
+            cfg = FileCfg { codec: CompressionType::None, level: 0, block_size: 64, unclamped: true, interval: Some(2), levels: 254 + i as u8 };
+            es = (0..9u32).map(|x| (vec![x as u8, 1], vec![x as u8; 30])).collect();
+        }
         let file = match write_file(&cfg, &es) {
             WriteOutcome::File(f) => f,
             _ => continue,
@@ -714,8 +747,10 @@ pub fn generate_iter_exhaustive<W: Write>(c: &mut Cases<W>, thorough: bool, whic
     let level_set: &[u8] = if thorough { &[0, 1, 2] } else { &[1] };
     for &levels in level_set {
         let cfg = FileCfg { codec: CompressionType::None, level: 0, block_size: 16, unclamped: true, interval: Some(1), levels };
-        for mask in 0u32..32 {
-            let es: Vec<(Vec<u8>, Vec<u8>)> = (0..5).filter(|i| mask & (1 << i) != 0).map(|i| (universe[i].clone(), vec![i as u8; 18])).collect();
+        for mask in 0u32..64 {
+            // masks 32..63: the same key sets with empty values (the two-byte frame of ("", ""))
+            let vlen = if mask >= 32 { 0 } else { 18 };
+            let es: Vec<(Vec<u8>, Vec<u8>)> = (0..5).filter(|i| mask & (1 << i) != 0).map(|i| (universe[i].clone(), vec![i as u8; vlen])).collect();
             let file = match write_file(&cfg, &es) {
                 WriteOutcome::File(f) => f,
                 _ => continue,
